@@ -28,7 +28,7 @@ func idxOfCall(path *Path, f *types.Func, from int) int {
 // ruleLeaveComplete (E1): what leaving a session does, on every path of the leave function.
 func ruleLeaveComplete(r *Run) {
 	m := r.M()
-	if len(r.Undecided) > 0 {
+	if r.broken() {
 		return
 	}
 	if len(m.Leave) != 1 {
@@ -44,7 +44,7 @@ func ruleLeaveComplete(r *Run) {
 	rmPart := r.fn(pkgModels, "Session", "RemoveParticipant")
 	count := r.fn(pkgModels, "Session", "ParticipantCount")
 	storeRm := r.fn(pkgModels, "SessionStore", "Remove")
-	if len(r.Undecided) > 0 {
+	if r.broken() {
 		return
 	}
 	stopField := r.P.LookupField(pkgWS, "RealtimeHandler", "stopFrameHandling")
@@ -231,7 +231,7 @@ func ruleLeaveComplete(r *Run) {
 // ruleLeaveCallers (E2): who may call the leave function.
 func ruleLeaveCallers(r *Run) {
 	m := r.M()
-	if len(r.Undecided) > 0 || len(m.Leave) == 0 {
+	if r.broken() || len(m.Leave) == 0 {
 		return
 	}
 	leave := m.Leave[0].Obj
@@ -290,7 +290,7 @@ func ruleLeaveCallers(r *Run) {
 // entity deletion remove.
 func ruleModuleCleanup(r *Run) {
 	m := r.M()
-	if len(r.Undecided) > 0 {
+	if r.broken() {
 		return
 	}
 	byID := r.fn(pkgModels, "Session", "EntityByID")
@@ -401,7 +401,7 @@ func ruleModuleCleanup(r *Run) {
 // equal nil-ness.
 func rulePairedState(r *Run) {
 	m := r.M()
-	if len(r.Undecided) > 0 {
+	if r.broken() {
 		return
 	}
 	cs := r.P.LookupField(pkgWS, "RealtimeHandler", "currentSession")
@@ -485,7 +485,7 @@ var notDispatched = map[string]string{
 
 func ruleDispatchTotal(r *Run) {
 	m := r.M()
-	if len(r.Undecided) > 0 {
+	if r.broken() {
 		return
 	}
 	checkEnum := func(pbPkg string, arms []Arm, who string) int {
@@ -642,7 +642,7 @@ func ruleDispatchTotal(r *Run) {
 
 func ruleDecoratorForward(r *Run) {
 	m := r.M()
-	if len(r.Undecided) > 0 {
+	if r.broken() {
 		return
 	}
 	iface := m.HandlerIface.Underlying().(*types.Interface)
